@@ -198,6 +198,14 @@ EXTRA11 = {
     "C11": "Facades built on the all-ones block are updated to all zeros; reminder reports without a valid record.",
     "C18": "Spas reporting versions without a shipped table: no other table is loaded in their place (both clients).",
 }
+EXTRA12 = {
+    "C05": "Every blocking history contains a quiet spell of 320 s followed by updates.",
+    "C07": "A socket error reported while an unknown datagram is marked; identifier pairs that differ only by surrounding white space.",
+    "C13": "Two blocking-twin commands issued back to back inside one loop iteration.",
+    "C15": "Names containing the prefixes by which an app's own hello is recognised; every listed name is used.",
+}
+for _k, _v in EXTRA12.items():
+    EXTRA[_k] = (EXTRA.get(_k, "") + " " + _v).strip()
 for _k, _v in EXTRA11.items():
     EXTRA[_k] = (EXTRA.get(_k, "") + " " + _v).strip()
 for _k, _v in EXTRA10.items():
